@@ -146,8 +146,13 @@ int mkdir_p(const char *path)
 	if (*path == '\0' || (path[0] == '/' && path[1] == '\0'))
 		return 0;
 
+	/* the path may stem from an image, so it can be of any length */
 	len = strlen(path) + 1;
-	buffer = alloca(len);
+	buffer = malloc(len);
+	if (buffer == NULL) {
+		perror(path);
+		return -1;
+	}
 
 	for (i = 0; i < len; ++i) {
 		if (i > 0 && (path[i] == '/' || path[i] == '\0')) {
@@ -157,6 +162,7 @@ int mkdir_p(const char *path)
 				if (errno != EEXIST) {
 					fprintf(stderr, "mkdir %s: %s\n",
 						buffer, strerror(errno));
+					free(buffer);
 					return -1;
 				}
 			}
@@ -165,6 +171,7 @@ int mkdir_p(const char *path)
 		buffer[i] = path[i];
 	}
 
+	free(buffer);
 	return 0;
 }
 #endif
